@@ -360,15 +360,22 @@ where
                 .unknown_source()
         })?;
 
-        if max_cycles < cycles {
+        // the suspended group has already consumed part of the budget before it was suspended
+        let spent = snap
+            .state
+            .as_ref()
+            .map(|state| state.total_cycles)
+            .unwrap_or(0)
+            .saturating_add(cycles);
+        if max_cycles < spent {
             return Err(ScriptError::ExceededMaximumCycles(max_cycles)
                 .source(current_group)
                 .into());
         }
 
         // continue snapshot current script
-        // max_cycles - cycles checked
-        match self.verify_group_with_chunk(current_group, max_cycles - cycles, &snap.state) {
+        // max_cycles - spent checked
+        match self.verify_group_with_chunk(current_group, max_cycles - spent, &snap.state) {
             Ok(ChunkState::Completed(used_cycles, _consumed_cycles)) => {
                 cycles = wrapping_cycles_add(cycles, used_cycles, current_group)?;
             }
@@ -668,7 +675,10 @@ where
                     }
                     ChunkCommand::Resume => {
                         //info!("[verify-test] run_vms_child: resume");
-                        let res = scheduler.run(RunMode::Pause(pause_cloned, max_cycles));
+                        // the limit of a run is a step budget: after a pause only what is
+                        // left of `max_cycles` may be spent
+                        let remain_cycles = max_cycles.saturating_sub(scheduler.consumed_cycles());
+                        let res = scheduler.run(RunMode::Pause(pause_cloned, remain_cycles));
                         match res {
                             Ok(_) => {
                                 let _ = finish_tx.send(res);
